@@ -384,22 +384,30 @@ def _thread_job(args):
             for name in table:
                 if name == 'DictBoxSortNNPS':
                     continue
-                kw = {'cache': True}
-                kwl = [['cache', True]]
                 if [name, klass] in skip or [name, sig_of(cfg)] in skip:
                     continue
-                crumb(dict(ident=[None, name, kwl], klass=klass,
-                           cfg=dict(cfg=cfg, threads=nt)))
-                try:
-                    nn = U.make_nnps(name, cfg['dim'], pas, kw)
-                    got = U.query_all(nn, pas, use_find_all=True)
-                    pr = U.check_lists(pas, got, False, ref)
-                except Exception as e:  # noqa
-                    pr = [('exception:%s' % type(e).__name__, repr(e))]
-                ne += 1
-                for kind, det in pr[:1]:
-                    out.append((name, 'threads:' + kind,
-                                dict(cache=True, threads=nt), det, cfg))
+                # the thread count also selects the tree builder of the
+                # octrees: deep trees (small leaves), with and without cache
+                kws = [{'cache': True}]
+                if 'Octree' in name:
+                    kws += [{'cache': True, 'leaf_max_particles': 2},
+                            {'cache': False, 'leaf_max_particles': 2},
+                            {'cache': False, 'leaf_max_particles': 4}]
+                for kw in kws:
+                    kwl = [[k, kw[k]] for k in sorted(kw)]
+                    crumb(dict(ident=[None, name, kwl], klass=klass,
+                               cfg=dict(cfg=cfg, threads=nt)))
+                    try:
+                        nn = U.make_nnps(name, cfg['dim'], pas, dict(kw))
+                        got = U.query_all(nn, pas,
+                                          use_find_all=kw['cache'])
+                        pr = U.check_lists(pas, got, False, ref)
+                    except Exception as e:  # noqa
+                        pr = [('exception:%s' % type(e).__name__, repr(e))]
+                    ne += 1
+                    for kind, det in pr[:1]:
+                        out.append((name, 'threads:' + kind,
+                                    dict(kw, threads=nt), det, cfg))
     set_number_of_threads(1)
     return ne, out
 
